@@ -2,6 +2,7 @@ package main
 
 import (
 	"fmt"
+	"strconv"
 	"go/token"
 	"go/types"
 	"math/big"
@@ -620,7 +621,10 @@ func (m *Machine) evalLoc(st *State, fc *FuncContract, name, expr string, bind m
 	e := strings.TrimSpace(expr)
 	if strings.HasSuffix(e, "[*]") {
 		// all elements of a slice-valued expression
-		base := strings.TrimSuffix(e, "[*]")
+		base := strings.TrimSpace(strings.TrimSuffix(e, "[*]"))
+		for strings.HasPrefix(base, "(") && strings.HasSuffix(base, ")") {
+			base = strings.TrimSpace(base[1 : len(base)-1])
+		}
 		var sl *Slice
 		if v, ok := bind[base]; ok {
 			sl, _ = v.(*Slice)
@@ -717,6 +721,22 @@ func (m *Machine) localBindingsAt(st *State, fr *Frame, at, header *ssa.BasicBlo
 	for _, n := range names {
 		if _, ok := bind[n]; ok {
 			continue
+		}
+		// rangeindexN: the index variable of range loop number N of this function
+		if strings.HasPrefix(n, "rangeindex") && len(n) > len("rangeindex") {
+			if k, err := strconv.Atoi(n[len("rangeindex"):]); err == nil {
+				li := m.loopInfoOf(fr.fn)
+				if k >= 1 && k <= len(li.headers) {
+					for _, ins := range li.headers[k-1].Instrs {
+						if phi, ok := ins.(*ssa.Phi); ok && phi.Comment == "rangeindex" {
+							if v, ok := fr.env[phi]; ok {
+								bind[n] = v
+							}
+						}
+					}
+				}
+				continue
+			}
 		}
 		// phi at the header
 		found := false
